@@ -1054,6 +1054,9 @@ fn simpler_knobs(s: &ShapeSpec) -> Vec<ShapeSpec> {
         if k.layout != shape::Layout::Contiguous {
             out.push(ShapeSpec { knobs: Knobs { layout: shape::Layout::Contiguous, ..k }, ..s.clone() });
         }
+        if k.unfused {
+            out.push(ShapeSpec { knobs: Knobs { unfused: false, ..k }, ..s.clone() });
+        }
         if !k.spec_count || !k.spec_nth || k.spec_fold || k.spec_last {
             out.push(ShapeSpec {
                 knobs: Knobs { spec_count: true, spec_nth: true, spec_fold: false, spec_last: false, ..k },
